@@ -21,7 +21,7 @@ THEOREMS = [
     "Wild.C20.c20_full_witness",
     "Wild.C20.restore_mtime_witness",
 ]
-LEVEL = "partial"
+LEVEL = "proof"
 TRUSTED = [
     "model lean/WildModel/Model/InputsChanged.lean of FileData::open (fstat mtime before mmap) / FileLoader::verify_inputs_unchanged (stat by path, "
     "entries without data skipped) / precedence in link_for_arch, over the clock of Model/Fs; tied by `ic-run` correspondence: the hooked wild is parked at a "
@@ -38,7 +38,7 @@ ASSUMPTIONS = [
 ]
 EXPLANATION = ("c20_partial: every change that alters the recorded identity (mtime through the path at verification time != mtime recorded at open, or the path is gone) "
                "fails the link whatever the link result, and the inputs-changed error wins (c20_precedence). C20_full (any content change) is refuted by "
-               "same_tick_witness / restore_mtime_witness; level partial.")
+               "same_tick_witness / restore_mtime_witness; DESIGN level: partial (proof of the partial statement; timestamp granularity is a runtime parameter).")
 
 POINTS = ["after-inputs-loaded", "after-symbol-resolution", "after-layout", "after-write"]
 MUTS = ["rewrite", "append", "rename", "rename-same-mtime", "touch", "restore", "remove", "none"]
@@ -186,7 +186,7 @@ def run(ctx):
             ctx.cov["impl_oracle_failures"] += 1
             ctx.violation(f"c20:missed:{m}:{k}:{pt}",
                           f"{k} `{TARGET[k]}` was modified ({m}) while the link was parked at {pt}, and the link still exited 0",
-                          {"cmd": [C.WILD] + args, "env": env, "mutation": m, "target": TARGET[k],
+                          {"cmd": [C.wild_display()] + args, "env": env, "mutation": m, "target": TARGET[k],
                            "how": "run cmd with env in a directory holding main.o libfoo.a(foo.o) libbar.a(thin: bar.o) script.ld; when <gate>.reached appears apply the mutation, then create <gate>"})
         if m in ("restore", "rename-same-mtime") and rc == 0:
             ctx.count("boundary", f"missed-as-documented:{m}:{k}")
